@@ -2,5 +2,5 @@
 # builds the model driver from the extracted model.ml (written by coq/theories/Extract/Extract.v)
 set -e
 cd "$(dirname "$0")"
-ocamlfind ocamlopt -O2 -w -a -package zarith -linkpkg model.mli model.ml conv.ml driver.ml -o driver 2>/dev/null || \
-ocamlfind ocamlopt -w -a -package zarith -linkpkg model.mli model.ml conv.ml driver.ml -o driver
+ocamlfind ocamlopt -O2 -w -a -package zarith -linkpkg model.mli model.ml conv.ml explore.ml driver.ml -o driver 2>/dev/null || \
+ocamlfind ocamlopt -w -a -package zarith -linkpkg model.mli model.ml conv.ml explore.ml driver.ml -o driver
